@@ -82,11 +82,20 @@ func genExecConfig(r *RNG, v2 bool, o execGenOpts) *ExecConfig {
 			case 3:
 				g.Namers = []string{"x", "raw", "y" + Itoa(gi+1)}
 			}
+			// contributed lines are text, not formats: some carry '%' (a modulo, a format-string constant)
 			for k := r.Intn(3); k > 0; k-- {
-				g.Vars = append(g.Vars, "v"+Itoa(gi)+Itoa(k)+" = "+Itoa(k))
+				v := "v" + Itoa(gi) + Itoa(k) + " = " + Itoa(k)
+				if r.Chance(1, 4) {
+					v = "v" + Itoa(gi) + Itoa(k) + " = hash % " + Itoa(k+1)
+				}
+				g.Vars = append(g.Vars, v)
 			}
 			for k := r.Intn(3); k > 0; k-- {
-				g.Consts = append(g.Consts, "c"+Itoa(gi)+Itoa(k)+" = "+Itoa(k))
+				cst := "c" + Itoa(gi) + Itoa(k) + " = " + Itoa(k)
+				if r.Chance(1, 4) {
+					cst = "c" + Itoa(gi) + Itoa(k) + " = \"%s/%d%%\""
+				}
+				g.Consts = append(g.Consts, cst)
 			}
 			for k := r.Intn(3); k > 0; k-- {
 				g.Imports = append(g.Imports, []string{"fmt", "os", "alias \"a/b\"", "k8s.io/x", "\"strings\""}[r.Intn(5)])
@@ -175,6 +184,40 @@ func ExecGenProtocol(c *Ctx, v2 bool) {
 	}
 }
 
+// C03: runs of two or three targets over one Context, no faults: what each target and generator is offered
+func ExecGenSharedContext(c *Ctx, v2 bool) {
+	r := c.RNG("gen-shared")
+	n := c.Scale(600, 12000)
+	for i := 0; i < n; i++ {
+		cfg := genExecConfig(r, v2, execGenOpts{})
+		if len(cfg.Targets) < 2 {
+			continue
+		}
+		c.Case(cfg.Lines(), Meta{Nontrivial: nontrivialExec(cfg), Features: append(execFeatures(cfg), "shared-context")})
+	}
+}
+
+// C09: what the generators of a file contribute (variables, constants, bodies, imports) reaches the file as it is
+func ExecGenContributions(c *Ctx, v2 bool) {
+	r := c.RNG("gen-contrib")
+	n := c.Scale(500, 10000)
+	for i := 0; i < n; i++ {
+		cfg := genExecConfig(r, v2, execGenOpts{})
+		contributes := false
+		for _, t := range cfg.Targets {
+			for _, g := range t.Gens {
+				if len(g.Vars)+len(g.Consts) > 0 {
+					contributes = true
+				}
+			}
+		}
+		if !contributes {
+			continue
+		}
+		c.Case(cfg.Lines(), Meta{Nontrivial: true, Features: append(execFeatures(cfg), "contributions")})
+	}
+}
+
 // C13: every fault position of each base configuration
 func ExecGenFailures(c *Ctx, v2 bool) {
 	r := c.RNG("gen")
@@ -252,6 +295,11 @@ func ExecGenFailures(c *Ctx, v2 bool) {
 func ExecGenVerify(impl ExecImpl) func(c *Ctx, v2 bool) {
 	return func(c *Ctx, v2 bool) {
 		r := c.RNG("gen")
+		if impl.ArgsVerify != nil {
+			for _, m := range ArgsVerifyModes {
+				c.Case([]string{Line("ex", "argsverify", Hex(m[0]))}, Meta{Nontrivial: true, Features: []string{"generator-args:" + strings.SplitN(m[0], ":", 2)[0]}})
+			}
+		}
 		n := c.Scale(250, 5000)
 		for i := 0; i < n; i++ {
 			base := genExecConfig(r, v2, execGenOpts{})
